@@ -308,11 +308,19 @@ func c06Recorded(e *Env) {
 	r.Check(okUnion, "R06.4", pkey+"#union-of-all-tokens", "DependsOnParams is the concatenation of the dependencies of every token, without filter or early exit")
 	// and the stored dependency list is that accumulator
 	okStored := false
+	throughHelper := ""
 	var unionStores []*ssa.Store
 	for _, b := range pf.Blocks {
 		for _, ins := range b.Instrs {
 			if st, ok := ins.(*ssa.Store); ok {
 				if fa, ok := st.Addr.(*ssa.FieldAddr); ok && fieldName(fa) == "DependsOnParams" {
+					if c, isCall := st.Val.(*ssa.Call); isCall && !(accCall != nil && st.Val == accCall) {
+						// the list passes through a function on its way into the result: a filter that is not followed
+						if g := c.Call.StaticCallee(); g != nil && e.P.InModule(g) {
+							throughHelper = e.P.FuncKey(g)
+							continue
+						}
+					}
 					if derivesFromField(st.Val, "DependsOn", 0) || phiOfAppends(st.Val) || (accCall != nil && st.Val == accCall) {
 						okStored = true
 						unionStores = append(unionStores, st)
@@ -321,7 +329,11 @@ func c06Recorded(e *Env) {
 			}
 		}
 	}
-	r.Check(okStored, "R06.4", pkey+"#stores-the-union", "the result's DependsOnParams is the accumulated list")
+	if !okStored && throughHelper != "" {
+		r.Undecide("R06.4", pkey+"#stores-the-union", "the accumulated list reaches the result only through "+throughHelper+", a rewrite of the list that is not followed: an entry it drops is a reference that is compiled into the code but never validated", e.P.Pos(pf.Pos()))
+	} else {
+		r.Check(okStored, "R06.4", pkey+"#stores-the-union", "the result's DependsOnParams is the accumulated list")
+	}
 	// every successful return carries it: no fast path hands out code without its references
 	if okStored {
 		okAll, bad := true, token.NoPos
@@ -577,6 +589,47 @@ func c06Diagnostics(e *Env) {
 				}
 			}
 			r.Check(names >= 1 && missing, "R06.5", key, "the diagnostic names the referrer and the missing name", e.P.Pos(s.call.Pos()))
+			// the check of a reference depends on nothing but the loops over the elements and the look-up in
+			// the declared set: a shortcut that skips some elements (todo services, services without arguments,
+			// …) leaves their references unchecked
+			why := ""
+			sf := s.call.Parent()
+			for _, b := range sf.Blocks {
+				iff, isIf := b.Instrs[len(b.Instrs)-1].(*ssa.If)
+				if !isIf || isLoopHeader(b) {
+					continue
+				}
+				if !edgeDominates(b, true, s.call) && !edgeDominates(b, false, s.call) {
+					continue
+				}
+				// membership test: the ok of a look-up in a map (or the looked-up bool itself)
+				cond := iff.Cond
+				if u, isU := cond.(*ssa.UnOp); isU && u.Op == token.NOT {
+					cond = u.X
+				}
+				member := false
+				switch x := cond.(type) {
+				case *ssa.Extract:
+					if lk, isLk := x.Tuple.(*ssa.Lookup); isLk && lk.CommaOk && x.Index == 1 {
+						member = true
+					}
+				case *ssa.Lookup:
+					_, member = x.X.Type().Underlying().(*types.Map)
+				case *ssa.Call:
+					// a one-line predicate of the package around such a look-up (isDeclared(set, name))
+					if g := x.Call.StaticCallee(); g != nil && e.P.InModule(g) && len(g.Blocks) == 1 {
+						for _, gi := range g.Blocks[0].Instrs {
+							if _, isLk := gi.(*ssa.Lookup); isLk {
+								member = true
+							}
+						}
+					}
+				}
+				if !member {
+					why = fmt.Sprintf("%s at %s", iff.Cond.String(), e.P.Pos(iff.Cond.Pos()))
+				}
+			}
+			r.Check(why == "", "R06.5", key+"#no-shortcut", "the look-up of this reference depends only on the loops over the elements and on the membership test (found another condition: "+why+")", e.P.Pos(s.call.Pos()))
 		}
 		// every return combines all sub-validators
 		var subs []ssa.Value
